@@ -55,11 +55,9 @@ def run(ctx):
             gate.add(lit)
     cut = {(gb, tb) for lit in gate for gb, tb in guards_true[lit]}
     # the switch on the eq result sits in the continuation block of the eq call
+    cut_edges = {(kit.guard_switch_block(lx, gb), tb) for gb, tb in cut}
     def edge_ok(s, d):
-        for gb, tb in cut:
-            if lx.term(gb).get("t") == s and d == tb:
-                return False
-        return True
+        return (s, d) not in cut_edges
     r = lx.reachable(0, edge_filter=edge_ok, threaded=True)
     only = not any(fb in r for fb in flag_blocks)
     stack_lits = {l for l, k in mapping.items() if k in STACK_KINDS}
@@ -76,8 +74,13 @@ def run(ctx):
     def subject(gb):
         t = lx.term(gb)
         es = [lx.expr(a, 12) for a in t["args"]]
-        es = [e for e in es if not any(x[0] == "str" for x in expr_walk(e))]
-        return es[0] if len(es) == 1 else None
+        es = [e for e in es if not any(x[0] in ("str", "uneval") for x in expr_walk(e))]      # drop the literal / the constant table
+        if len(es) != 1:
+            return None
+        e = es[0]
+        while e[0] in ("ref", "deref"):          # `x == "lit"` passes &x, `TABLE.contains(&x)` passes &&x: the same string
+            e = e[1]
+        return e
     subj = {}
     for lit, val, tb, gb in tab:
         subj.setdefault(repr(subject(gb)), []).append(lit)
